@@ -425,6 +425,12 @@ func (t *threadSafeList[T]) PushBackList(other List[T]) {
 	t.mutex.Lock()
 	defer t.mutex.Unlock()
 
+	// pushing a list onto itself is allowed (as in container/list): read through the inner list, the accessors of
+	// the thread-safe wrapper would try to re-acquire the mutex that is already held
+	if other == List[T](t) {
+		other = t.list
+	}
+
 	t.list.PushBackList(other)
 }
 
@@ -432,6 +438,12 @@ func (t *threadSafeList[T]) PushBackList(other List[T]) {
 func (t *threadSafeList[T]) PushFrontList(other List[T]) {
 	t.mutex.Lock()
 	defer t.mutex.Unlock()
+
+	// pushing a list onto itself is allowed (as in container/list): read through the inner list, the accessors of
+	// the thread-safe wrapper would try to re-acquire the mutex that is already held
+	if other == List[T](t) {
+		other = t.list
+	}
 
 	t.list.PushFrontList(other)
 }
